@@ -731,6 +731,10 @@ impl CliOptions for GetOptsOptions {
         for (key, val) in self.inline_config {
             config.override_value(&key, &val);
         }
+        // `--check` must stay read-only whatever `--config emit_mode=...` asks for.
+        if self.check {
+            config.set_cli().emit_mode(EmitMode::Diff);
+        }
     }
 
     fn config_path(&self) -> Option<&Path> {
